@@ -171,14 +171,14 @@ def run(ctx):
             case["args"].update(route="unpack", group_attr=ctx.rng.choice(["twprge", "sec", "twp"]))
         elif r < 0.45:
             case["args"].update(route="grouped", group_attr=ctx.rng.choice(["twprge", "sec", "twp"]),
-                                grouped_how=ctx.rng.choice(["group_by", "sort_grouped"]))
+                                grouped_how=ctx.rng.choice(["group_by", "sort_grouped", "into_method", "into_function"]))
         rnd.append(case)
     check(ctx, rnd)
     ctx.rule = ("(list, key string) cases = terminal states of spec/SortSpec.tla (lists up to %d over valid/error/undefined "
                 "components, 1 key incl. .rev) + 15 illegal keys x 3 containers x lists of 0, 1 and 2 elements + seeded random lists of 2..8 elements "
                 "(numbers up to 160, ~25%% invalid components, shuffled creation order) with 1..3 keys; built as real "
                 "Tract/TRS objects in TractList/TRSList/PLSSDesc, 45%% of them through the other routes to the same sort (the keys as a "
-                "list / tuple; group_by(sort_key=) and sort_grouped(): one record per group; unpack_group(sort_key=)); non-trivial = distinct (container, key, list) with >= 2 "
+                "list / tuple; group_by(sort_key=), sort_grouped() and grouping a second batch into= the sorted groups of the first (method and module-level function): one record per group; unpack_group(sort_key=)); non-trivial = distinct (container, key, list) with >= 2 "
                 "elements" % cfg_e["MaxLen"])
     ctx.assumptions += ["township/range number 0 is not generated (north 0 and south 0 tie in the code; not a real township)",
                         "keys such as 't.foo' (partially interpreted with a warning) are not claimed (R3)"]
